@@ -1,13 +1,21 @@
 //! Stateless, exhaustive, deviation-bounded depth-first exploration of the choice tree.
 //! Every execution re-runs the real code from scratch; a state is the history that reaches it.
+//!
+//! Parallelism is by worker *processes* (arc-swap keeps process-global debt lists, which makes
+//! threads of one process contend on every ArcSwap store/drop; separate processes also give back
+//! the memory that the crate's own Arc cycles leak per subscription): the parent expands the top
+//! of the tree breadth-first into a frontier of prefixes, workers explore the subtrees.
 
 use crate::exec::*;
+use serde_json::{json, Value};
 use std::collections::hash_map::DefaultHasher;
-use std::collections::{HashMap, HashSet};
+use std::collections::{HashMap, HashSet, VecDeque};
 use std::hash::{Hash, Hasher};
-use std::sync::atomic::{AtomicBool, AtomicU64, AtomicUsize, Ordering};
-use std::sync::{Arc, Mutex};
-use std::time::{Duration, Instant};
+use std::io::{BufRead, BufReader, Write};
+use std::process::{Child, ChildStdin, ChildStdout, Command, Stdio};
+use std::sync::atomic::{AtomicUsize, Ordering};
+use std::sync::Mutex;
+use std::time::{Duration, Instant, SystemTime, UNIX_EPOCH};
 
 #[derive(Clone, Debug)]
 pub struct Viol {
@@ -34,6 +42,8 @@ pub trait Target: Send + Sync {
     fn digest(&self, _ex: &Exec) -> u64 {
         0
     }
+    /// (E, D) for the evidence
+    fn bounds(&self) -> (u32, u32);
 }
 
 #[derive(Clone, Debug)]
@@ -52,6 +62,7 @@ pub struct Stats {
     pub events: u64,
     pub max_choices: usize,
     pub max_devs: u32,
+    pub max_preempts: u32,
     pub outcomes: HashSet<u64>,
     pub nontrivial: HashSet<u64>,
     pub found: HashMap<String, Found>,
@@ -73,6 +84,7 @@ impl Stats {
         self.events += o.events;
         self.max_choices = self.max_choices.max(o.max_choices);
         self.max_devs = self.max_devs.max(o.max_devs);
+        self.max_preempts = self.max_preempts.max(o.max_preempts);
         self.outcomes.extend(o.outcomes);
         self.nontrivial.extend(o.nontrivial);
         for (k, f) in o.found {
@@ -95,11 +107,9 @@ impl Stats {
         self.divergences += o.divergences;
         self.digest_sum = self.digest_sum.wrapping_add(o.digest_sum);
         self.digest_xor ^= o.digest_xor;
-        if self.samples.len() < 3 {
-            for s in o.samples {
-                if self.samples.len() < 3 {
-                    self.samples.push(s);
-                }
+        for s in o.samples {
+            if self.samples.len() < 3 {
+                self.samples.push(s);
             }
         }
         if self.machinery_fault.is_none() {
@@ -107,18 +117,87 @@ impl Stats {
         }
         self.capped |= o.capped;
     }
-}
 
-struct Shared<'a> {
-    target: &'a dyn Target,
-    queue: Mutex<Vec<(Vec<u16>, Vec<u16>)>>,
-    qlen: AtomicUsize,
-    inflight: AtomicUsize,
-    stop: AtomicBool,
-    deadline: Instant,
-    want_queue: usize,
-    execs: AtomicU64,
-    want_samples: bool,
+    pub fn to_json(&self) -> Value {
+        let found: Vec<Value> = self
+            .found
+            .values()
+            .map(|f| {
+                json!({
+                    "clause": f.viol.clause, "at": f.viol.at, "detail": f.viol.detail, "sig": f.viol.sig,
+                    "script": f.script, "script_n": f.script_n, "cost0": f.cost.0, "cost1": f.cost.1, "count": f.count,
+                })
+            })
+            .collect();
+        json!({
+            "execs": self.execs, "states": self.states, "events": self.events,
+            "max_choices": self.max_choices, "max_devs": self.max_devs, "max_preempts": self.max_preempts,
+            "outcomes": self.outcomes.iter().collect::<Vec<_>>(),
+            "nontrivial": self.nontrivial.iter().collect::<Vec<_>>(),
+            "found": found,
+            "violating_execs": self.violating_execs, "panics": self.panics, "divergences": self.divergences,
+            "digest_sum": self.digest_sum, "digest_xor": self.digest_xor,
+            "samples": self.samples, "machinery_fault": self.machinery_fault, "capped": self.capped,
+        })
+    }
+
+    pub fn from_json(v: &Value) -> Stats {
+        let u = |k: &str| v[k].as_u64().unwrap_or(0);
+        let set = |k: &str| -> HashSet<u64> {
+            v[k].as_array().map(|a| a.iter().filter_map(|x| x.as_u64()).collect()).unwrap_or_default()
+        };
+        let vec16 = |x: &Value| -> Vec<u16> {
+            x.as_array().map(|a| a.iter().map(|y| y.as_u64().unwrap_or(0) as u16).collect()).unwrap_or_default()
+        };
+        let mut found = HashMap::new();
+        if let Some(a) = v["found"].as_array() {
+            for f in a {
+                let sig = f["sig"].as_str().unwrap_or("").to_string();
+                found.insert(
+                    sig.clone(),
+                    Found {
+                        viol: Viol {
+                            clause: f["clause"].as_str().unwrap_or("").to_string(),
+                            at: f["at"].as_u64().unwrap_or(0) as usize,
+                            detail: f["detail"].as_str().unwrap_or("").to_string(),
+                            sig,
+                        },
+                        script: vec16(&f["script"]),
+                        script_n: vec16(&f["script_n"]),
+                        cost: (f["cost0"].as_u64().unwrap_or(0) as u32, f["cost1"].as_u64().unwrap_or(0) as usize),
+                        count: f["count"].as_u64().unwrap_or(0),
+                    },
+                );
+            }
+        }
+        Stats {
+            execs: u("execs"),
+            states: u("states"),
+            events: u("events"),
+            max_choices: u("max_choices") as usize,
+            max_devs: u("max_devs") as u32,
+            max_preempts: u("max_preempts") as u32,
+            outcomes: set("outcomes"),
+            nontrivial: set("nontrivial"),
+            found,
+            violating_execs: u("violating_execs"),
+            panics: u("panics"),
+            divergences: u("divergences"),
+            digest_sum: u("digest_sum"),
+            digest_xor: u("digest_xor"),
+            samples: v["samples"]
+                .as_array()
+                .map(|a| {
+                    a.iter()
+                        .map(|s| s.as_array().map(|l| l.iter().map(|x| x.as_str().unwrap_or("").to_string()).collect()).unwrap_or_default())
+                        .collect()
+                })
+                .unwrap_or_default(),
+            machinery_fault: v["machinery_fault"].as_str().map(|s| s.to_string()),
+            capped: v["capped"].as_bool().unwrap_or(false),
+            wall_s: 0.0,
+        }
+    }
 }
 
 fn hash_of<T: Hash>(t: &T) -> u64 {
@@ -135,38 +214,65 @@ pub fn sample_of(ex: &Exec) -> Vec<String> {
     v
 }
 
-fn explore_node(sh: &Shared, st: &mut Stats, script: Vec<u16>, script_n: Vec<u16>) {
-    if sh.stop.load(Ordering::Relaxed) {
+pub struct Ctl {
+    pub deadline_epoch_s: u64,
+    pub want_samples: bool,
+    pub execs_since_check: u64,
+}
+
+fn now_epoch_s() -> u64 {
+    SystemTime::now().duration_since(UNIX_EPOCH).map(|d| d.as_secs()).unwrap_or(0)
+}
+
+/// Run one node (execution) of the tree, account for it, and return its children (prefixes).
+fn visit(
+    t: &dyn Target,
+    st: &mut Stats,
+    ctl: &mut Ctl,
+    script: &[u16],
+    script_n: &[u16],
+    children: &mut Vec<(Vec<u16>, Vec<u16>)>,
+) {
+    if st.capped || st.machinery_fault.is_some() {
         return;
     }
-    let t = sh.target;
-    let ex = t.run(&script, &script_n, false);
-    let n_exec = sh.execs.fetch_add(1, Ordering::Relaxed);
-    if n_exec % 4096 == 0 && Instant::now() > sh.deadline {
-        st.capped = true;
-        sh.stop.store(true, Ordering::Relaxed);
+    ctl.execs_since_check += 1;
+    if ctl.execs_since_check >= 2048 {
+        ctl.execs_since_check = 0;
+        if now_epoch_s() > ctl.deadline_epoch_s {
+            st.capped = true;
+            return;
+        }
     }
+    let ex = t.run(script, script_n, false);
     st.execs += 1;
     let plen = script.len();
-    // new tree nodes contributed by this execution
-    st.states += (ex.choices.len() + 1 - plen.min(ex.choices.len())) as u64 - if plen > 0 { 0 } else { 0 };
-    st.events += ex.trace.iter().filter(|e| matches!(e, Ev::Top(_))).count() as u64;
-    st.max_choices = st.max_choices.max(ex.choices.len());
-    let mut limit = usize::MAX;
     match &ex.fault {
         Some(Fault::Nondet(s)) => {
             st.machinery_fault = Some(format!("nondeterministic replay in {}: {}", t.name(), s));
-            sh.stop.store(true, Ordering::Relaxed);
             return;
         },
         Some(Fault::Internal(s)) => {
             st.machinery_fault = Some(format!("internal harness error in {}: {}", t.name(), s));
-            sh.stop.store(true, Ordering::Relaxed);
             return;
         },
         Some(Fault::Divergence) => st.divergences += 1,
         None => {},
     }
+    if ex.choices.len() < plen {
+        st.machinery_fault = Some(format!(
+            "nondeterministic replay in {}: execution made {} choices, its prefix has {}",
+            t.name(),
+            ex.choices.len(),
+            plen
+        ));
+        return;
+    }
+    // new tree nodes contributed by this execution: depths plen..=L (the root execution also
+    // contributes the root node)
+    st.states += (ex.choices.len() + 1 - plen) as u64;
+    st.events += ex.trace.iter().filter(|e| matches!(e, Ev::Top(_))).count() as u64;
+    st.max_choices = st.max_choices.max(ex.choices.len());
     if ex.panicked {
         st.panics += 1;
     }
@@ -182,11 +288,12 @@ fn explore_node(sh: &Shared, st: &mut Stats, script: Vec<u16>, script_n: Vec<u16
         st.digest_sum = st.digest_sum.wrapping_add(h);
         st.digest_xor ^= h.rotate_left(17);
     }
-    if sh.want_samples && st.samples.len() < 3 && nontrivial && ex.choices.len() >= 3 {
+    if ctl.want_samples && st.samples.len() < 3 && nontrivial && ex.choices.len() >= 3 {
         st.samples.push(sample_of(&ex));
     }
     let devs_total = ex.devs_used();
     st.max_devs = st.max_devs.max(devs_total);
+    let mut limit = usize::MAX;
     if let Some(v) = t.check(&ex) {
         limit = v.at;
         st.violating_execs += 1;
@@ -214,7 +321,7 @@ fn explore_node(sh: &Shared, st: &mut Stats, script: Vec<u16>, script_n: Vec<u16
             },
         }
     }
-    // expand children
+    // children
     let dbound = t.dev_bound();
     let pbound = t.preempt_bound();
     let mut devs = 0u32;
@@ -236,15 +343,8 @@ fn explore_node(sh: &Shared, st: &mut Stats, script: Vec<u16>, script_n: Vec<u16
                 }
                 let mut cs: Vec<u16> = ex.choices[..i].iter().map(|c| c.pick).collect();
                 cs.push(alt);
-                let mut cn: Vec<u16> = ex.choices[..=i].iter().map(|c| c.n).collect();
-                cn.truncate(cs.len());
-                if sh.qlen.load(Ordering::Relaxed) < sh.want_queue {
-                    sh.inflight.fetch_add(1, Ordering::SeqCst);
-                    sh.queue.lock().unwrap().push((cs, cn));
-                    sh.qlen.fetch_add(1, Ordering::Relaxed);
-                } else {
-                    explore_node(sh, st, cs, cn);
-                }
+                let cn: Vec<u16> = ex.choices[..=i].iter().map(|c| c.n).collect();
+                children.push((cs, cn));
             }
         }
         if c.pick != 0 {
@@ -259,53 +359,264 @@ fn explore_node(sh: &Shared, st: &mut Stats, script: Vec<u16>, script_n: Vec<u16
             }
         }
     }
+    st.max_preempts = st.max_preempts.max(preempts);
 }
 
-pub fn explore(target: &dyn Target, threads: usize, cap: Duration, want_samples: bool) -> Stats {
-    let t0 = Instant::now();
-    let sh = Shared {
-        target,
-        queue: Mutex::new(vec![(vec![], vec![])]),
-        qlen: AtomicUsize::new(1),
-        inflight: AtomicUsize::new(1),
-        stop: AtomicBool::new(false),
-        deadline: t0 + cap,
-        want_queue: threads * 4,
-        execs: AtomicU64::new(0),
-        want_samples,
-    };
-    let total = Mutex::new(Stats::default());
-    std::thread::scope(|sc| {
-        for _ in 0..threads {
-            sc.spawn(|| {
-                let mut st = Stats::default();
-                loop {
-                    let job = {
-                        let mut q = sh.queue.lock().unwrap();
-                        let j = q.pop();
-                        if j.is_some() {
-                            sh.qlen.fetch_sub(1, Ordering::Relaxed);
-                        }
-                        j
-                    };
-                    match job {
-                        Some((s, n)) => {
-                            explore_node(&sh, &mut st, s, n);
-                            sh.inflight.fetch_sub(1, Ordering::SeqCst);
-                        },
-                        None => {
-                            if sh.inflight.load(Ordering::SeqCst) == 0 {
-                                break;
-                            }
-                            std::thread::sleep(Duration::from_micros(50));
-                        },
-                    }
-                }
-                total.lock().unwrap().merge(st);
-            });
+/// Depth-first exploration of the whole subtree below (and including) one prefix, in-process.
+pub fn explore_local(t: &dyn Target, st: &mut Stats, ctl: &mut Ctl, script: Vec<u16>, script_n: Vec<u16>) {
+    let mut stack: Vec<(Vec<u16>, Vec<u16>)> = vec![(script, script_n)];
+    let mut kids = Vec::new();
+    while let Some((s, n)) = stack.pop() {
+        kids.clear();
+        visit(t, st, ctl, &s, &n, &mut kids);
+        if st.capped || st.machinery_fault.is_some() {
+            return;
         }
-    });
-    let mut st = total.into_inner().unwrap();
+        // push in reverse so that the first child is explored first
+        while let Some(k) = kids.pop() {
+            stack.push(k);
+        }
+    }
+}
+
+/// Breadth-first expansion of the top of the tree until at least `want` subtrees are pending
+/// (or the tree is exhausted). Returns the pending prefixes.
+pub fn expand_frontier(
+    t: &dyn Target,
+    st: &mut Stats,
+    ctl: &mut Ctl,
+    want: usize,
+) -> Vec<(Vec<u16>, Vec<u16>)> {
+    let mut q: VecDeque<(Vec<u16>, Vec<u16>)> = VecDeque::new();
+    q.push_back((vec![], vec![]));
+    let mut kids = Vec::new();
+    while q.len() < want {
+        let Some((s, n)) = q.pop_front() else { break };
+        kids.clear();
+        visit(t, st, ctl, &s, &n, &mut kids);
+        if st.capped || st.machinery_fault.is_some() {
+            break;
+        }
+        for k in kids.drain(..) {
+            q.push_back(k);
+        }
+    }
+    q.into_iter().collect()
+}
+
+// ------------------------------------------------------------------------------------------------
+// worker processes
+
+pub struct Worker {
+    child: Child,
+    stdin: ChildStdin,
+    stdout: BufReader<ChildStdout>,
+    alive: bool,
+}
+
+pub struct Pool {
+    pub workers: Vec<Option<Worker>>,
+    pub args: Vec<String>,
+    pub deadline_epoch_s: u64,
+}
+
+fn fmt_list(v: &[u16]) -> String {
+    if v.is_empty() {
+        return "-".into();
+    }
+    v.iter().map(|x| x.to_string()).collect::<Vec<_>>().join(",")
+}
+
+pub fn parse_list(s: &str) -> Vec<u16> {
+    if s == "-" {
+        return vec![];
+    }
+    s.split(',').filter(|x| !x.is_empty()).map(|x| x.parse().unwrap()).collect()
+}
+
+impl Pool {
+    /// `args`: arguments that make this same binary act as a worker for the same check
+    pub fn new(n: usize, args: Vec<String>, deadline_epoch_s: u64) -> Pool {
+        Pool { workers: (0..n).map(|_| None).collect(), args, deadline_epoch_s }
+    }
+
+    fn spawn(&self) -> Result<Worker, String> {
+        let exe = std::env::current_exe().map_err(|e| e.to_string())?;
+        let mut child = Command::new(exe)
+            .args(&self.args)
+            .env("CBMC_DEADLINE", self.deadline_epoch_s.to_string())
+            .stdin(Stdio::piped())
+            .stdout(Stdio::piped())
+            .stderr(Stdio::inherit())
+            .spawn()
+            .map_err(|e| format!("cannot spawn worker: {e}"))?;
+        let stdin = child.stdin.take().unwrap();
+        let stdout = BufReader::new(child.stdout.take().unwrap());
+        Ok(Worker { child, stdin, stdout, alive: true })
+    }
+
+    /// Explore all `jobs` (subtree prefixes of target number `widx`) on the workers; returns the
+    /// merged statistics of those subtrees.
+    pub fn run(&mut self, widx: usize, jobs: Vec<(Vec<u16>, Vec<u16>)>) -> Stats {
+        let next = AtomicUsize::new(0);
+        let total = Mutex::new(Stats::default());
+        let jobs = &jobs;
+        let mut slots: Vec<Option<Worker>> = std::mem::take(&mut self.workers);
+        let this = &*self;
+        std::thread::scope(|sc| {
+            for slot in slots.iter_mut() {
+                let next = &next;
+                let total = &total;
+                sc.spawn(move || {
+                    let mut local = Stats::default();
+                    let fail = |local: &mut Stats, msg: String| {
+                        if local.machinery_fault.is_none() {
+                            local.machinery_fault = Some(msg);
+                        }
+                    };
+                    loop {
+                        let k = next.fetch_add(1, Ordering::Relaxed);
+                        if k >= jobs.len() {
+                            break;
+                        }
+                        if slot.is_none() {
+                            match this.spawn() {
+                                Ok(w) => *slot = Some(w),
+                                Err(e) => {
+                                    fail(&mut local, e);
+                                    break;
+                                },
+                            }
+                        }
+                        let w = slot.as_mut().unwrap();
+                        let line = format!("J {} {} {}\n", widx, fmt_list(&jobs[k].0), fmt_list(&jobs[k].1));
+                        if w.stdin.write_all(line.as_bytes()).and_then(|_| w.stdin.flush()).is_err() {
+                            fail(&mut local, "worker pipe closed".into());
+                            *slot = None;
+                            break;
+                        }
+                        // replies: OK | STATS json (then BYE)
+                        let mut reply = String::new();
+                        match w.stdout.read_line(&mut reply) {
+                            Ok(0) | Err(_) => {
+                                let code = w.child.wait().ok();
+                                fail(&mut local, format!("worker died ({code:?}) while exploring a subtree"));
+                                *slot = None;
+                                break;
+                            },
+                            Ok(_) => {},
+                        }
+                        if reply.starts_with("STATS ") {
+                            match serde_json::from_str::<Value>(&reply[6..]) {
+                                Ok(v) => local.merge(Stats::from_json(&v)),
+                                Err(e) => fail(&mut local, format!("bad worker reply: {e}")),
+                            }
+                            // the worker recycles itself
+                            let mut bye = String::new();
+                            let _ = w.stdout.read_line(&mut bye);
+                            let _ = w.child.wait();
+                            w.alive = false;
+                            *slot = None;
+                        } else if !reply.starts_with("OK") {
+                            fail(&mut local, format!("unexpected worker reply: {}", reply.trim()));
+                            break;
+                        }
+                    }
+                    // flush
+                    if let Some(w) = slot.as_mut() {
+                        let ok = w.stdin.write_all(b"FLUSH\n").and_then(|_| w.stdin.flush()).is_ok();
+                        let mut reply = String::new();
+                        if ok && w.stdout.read_line(&mut reply).map(|n| n > 0).unwrap_or(false) && reply.starts_with("STATS ") {
+                            match serde_json::from_str::<Value>(&reply[6..]) {
+                                Ok(v) => local.merge(Stats::from_json(&v)),
+                                Err(e) => fail(&mut local, format!("bad worker reply: {e}")),
+                            }
+                        } else {
+                            fail(&mut local, "worker did not answer FLUSH".into());
+                            *slot = None;
+                        }
+                    }
+                    total.lock().unwrap().merge(local);
+                });
+            }
+        });
+        self.workers = slots;
+        total.into_inner().unwrap()
+    }
+
+    pub fn shutdown(&mut self) {
+        for w in self.workers.iter_mut() {
+            if let Some(mut w) = w.take() {
+                drop(w.stdin);
+                let _ = w.child.wait();
+            }
+        }
+    }
+}
+
+/// Worker side: serve jobs from stdin until EOF.
+pub fn worker_loop(targets: &[Box<dyn Target>], recycle_after: u64) {
+    let deadline = std::env::var("CBMC_DEADLINE").ok().and_then(|s| s.parse().ok()).unwrap_or(u64::MAX);
+    let stdin = std::io::stdin();
+    let mut out = std::io::stdout();
+    let mut st = Stats::default();
+    let mut ctl = Ctl { deadline_epoch_s: deadline, want_samples: false, execs_since_check: 0 };
+    let mut lifetime_execs = 0u64;
+    for line in stdin.lock().lines() {
+        let Ok(line) = line else { break };
+        let mut it = line.split_whitespace();
+        match it.next() {
+            Some("J") => {
+                let widx: usize = it.next().unwrap().parse().unwrap();
+                let script = parse_list(it.next().unwrap());
+                let script_n = parse_list(it.next().unwrap());
+                let before = st.execs;
+                explore_local(&*targets[widx], &mut st, &mut ctl, script, script_n);
+                lifetime_execs += st.execs - before;
+                if lifetime_execs >= recycle_after {
+                    let _ = writeln!(out, "STATS {}", st.to_json());
+                    let _ = writeln!(out, "BYE");
+                    let _ = out.flush();
+                    return;
+                }
+                let _ = writeln!(out, "OK");
+                let _ = out.flush();
+            },
+            Some("FLUSH") => {
+                let _ = writeln!(out, "STATS {}", st.to_json());
+                let _ = out.flush();
+                st = Stats::default();
+            },
+            _ => {},
+        }
+    }
+}
+
+/// Explore one target completely: frontier in the parent, subtrees on the pool.
+pub fn explore(
+    t: &dyn Target,
+    widx: usize,
+    pool: &mut Pool,
+    cap: Duration,
+    want_samples: bool,
+) -> Stats {
+    let t0 = Instant::now();
+    let deadline = now_epoch_s() + cap.as_secs();
+    pool.deadline_epoch_s = pool.deadline_epoch_s.min(deadline).max(1);
+    let mut st = Stats::default();
+    let mut ctl = Ctl { deadline_epoch_s: deadline, want_samples, execs_since_check: 0 };
+    let nworkers = pool.workers.len().max(1);
+    let want = if nworkers <= 1 { usize::MAX } else { nworkers * 64 };
+    let jobs = if nworkers <= 1 {
+        explore_local(t, &mut st, &mut ctl, vec![], vec![]);
+        vec![]
+    } else {
+        expand_frontier(t, &mut st, &mut ctl, want)
+    };
+    if !jobs.is_empty() && st.machinery_fault.is_none() && !st.capped {
+        let sub = pool.run(widx, jobs);
+        st.merge(sub);
+    }
     st.wall_s = t0.elapsed().as_secs_f64();
     st
 }
